@@ -40,6 +40,14 @@ fn mesh(a: &mut Args) -> TriMesh {
     let idx: Vec<[u32; 3]> = (0..n).map(|_| [a.u() as u32, a.u() as u32, a.u() as u32]).collect();
     if oriented { TriMesh::with_flags(v, idx, TriMeshFlags::ORIENTED).expect("mesh") } else { TriMesh::new(v, idx).expect("mesh") }
 }
+/// the mesh argument built WITHOUT the ORIENTED flag (no cap triangulation in `local_split`), whatever the flag says
+fn mesh_plain(a: &mut Args) -> TriMesh {
+    let _ = a.b();
+    let v = pts(a);
+    let n = a.u();
+    let idx: Vec<[u32; 3]> = (0..n).map(|_| [a.u() as u32, a.u() as u32, a.u() as u32]).collect();
+    TriMesh::new(v, idx).expect("mesh")
+}
 fn hmesh(oriented: bool, v: &[P3], idx: &[[u32; 3]]) -> String {
     let mut s = format!("{} {} {}", b(oriented), hpts(v), idx.len());
     for t in idx { s.push_str(&format!(" {} {} {}", t[0], t[1], t[2])); }
@@ -108,11 +116,13 @@ pub fn exec(func: &str, a: &mut Args) -> String {
                 SplitResult::Pair(l, r) => format!("pair {} {}", fmesh(&l), fmesh(&r)) } }
         // the cutting part of `local_split`, bit-exact against `Model.Cut.localSplitUncapped`: the mesh is built WITHOUT the
         // ORIENTED flag (no cap triangulation), whatever the flag in the arguments says
-        "tm_cut" => { let _ = a.b(); let v = pts(a); let n = a.u();
-            let idx: Vec<[u32; 3]> = (0..n).map(|_| [a.u() as u32, a.u() as u32, a.u() as u32]).collect();
-            let m = TriMesh::new(v, idx).expect("mesh");
+        "tm_cut" => { let m = mesh_plain(a);
             let n = d3::v(a); let bias = a.f(); let eps = a.f();
             fsplit(m.local_split(&Unit::new_unchecked(n), bias, eps)) }
+        "tm_cut_pos" => { let m = mesh_plain(a); let pos = d3::iso(a); let n = d3::v(a); let bias = a.f(); let eps = a.f();
+            fsplit(m.split(&pos, &Unit::new_unchecked(n), bias, eps)) }
+        "tm_cut_canon" => { let m = mesh_plain(a); let axis = a.u(); let bias = a.f(); let eps = a.f();
+            fsplit(m.canonical_split(axis, bias, eps)) }
         "tm_split_pos" => { let m = mesh(a); let pos = d3::iso(a); let n = d3::v(a); let bias = a.f(); let eps = a.f();
             match m.split(&pos, &Unit::new_unchecked(n), bias, eps) {
                 SplitResult::Negative => "neg".into(), SplitResult::Positive => "pos".into(),
@@ -672,6 +682,7 @@ pub fn gen(r: &mut Rng, thorough: bool) -> Vec<(String, String)> {
                 _ => r.uniform(lo - 0.1, hi + 0.1) };
             let args = format!("{} {} {} {} {}", hm, d3::hiso(&pos), d3::hv(&nrm), hx(bias), hx(eps));
             v.push(("tm_split_pos".into(), args.clone()));
+            v.push(("tm_cut_pos".into(), args.clone()));
             v.push(("tm_section_pos".into(), args.clone()));
             v.push(("tm_verdict_pos".into(), args.clone()));
             let un = Unit::new_unchecked(nrm);
@@ -689,6 +700,7 @@ pub fn gen(r: &mut Rng, thorough: bool) -> Vec<(String, String)> {
                 _ => mv[k][(axis + 1) % 3] }; // the value a wrong axis would be compared with
             let args = format!("{} {} {} {}", hm, axis, hx(bias), hx(eps));
             v.push(("tm_canon_split".into(), args.clone()));
+            v.push(("tm_cut_canon".into(), args.clone()));
             v.push(("tm_canon_section".into(), args.clone()));
             v.push(("tm_verdict_canon".into(), args.clone()));
             v.push(("tm_plane_canon".into(), format!("{} {}", args, d3::hv(&V3::ith_axis(axis)))));
